@@ -17,7 +17,7 @@ pub fn prop() -> Prop {
     Prop {
         id: "C17",
         level: "model_checking",
-        rule: "sessions on a REAL retained (Compiler, VM) pair, every line fed through the real parse -> compile_ast -> run: (1) all sessions of <= 3 lines over a 52-line alphabet (declarations, re-declarations, assignments, expressions over earlier globals, a loop, self-contained function definitions with calls, a block with a local, heap-valued lines, three parse failures, compile failures at every statement position, run-time failures after k completed assignments and inside a nested call); (2) crash points: for every session of <= 2 lines and every line of it, the injected failure after k instructions for EVERY k up to the line's length, followed by probe lines reading every global; (3) breadth-first search to depth d over a 14-line core alphabet with states merged on the fingerprint of compiler + VM + model environment. (6) failing-lines ladder: N consecutive lines that fail inside a nested call with operands pending (N around every power of two up to 4097 / 16 385: about 20 operands are pending when each fails, so 3 300 lines would fill the 65 535-slot stack if anything accumulated), then a declaration, a 5 000-deep recursion and a read-back. (5) session-length ladder: N lines each adding a global and new constants (integers, floats and strings, or a function per line), N around every power of two up to 1025, three failing lines in the middle, earlier and newest globals read back along the way. (4) long sessions, deviation-bounded: four ordinary ten-line sessions (declarations, re-declarations, blocks, loops, functions, heap values, output), every crash point of every one of their lines with the rest of the session as continuation, and every insertion of ONE or TWO lines from a 32-line deviation set (parse / compile / run-time failures at several statement positions, in blocks, in functions, after output and after completed effects, misplaced stop, re-declaration, empty line) at every position: sessions of up to 12 lines. Oracle: a session model on the reference interpreter (a line that fails before running contributes nothing, a line that fails while running contributes exactly the effects it completed), equality of every line's value/output/error kind; for an injected failure the state afterwards must equal the model after SOME prefix of the line's effects; sessions without failing lines must also agree with eval of the concatenated text. The shadow heap stays on across lines",
+        rule: "sessions on a REAL retained (Compiler, VM) pair, every line fed through the real parse -> compile_ast -> run: (1) all sessions of <= 3 lines over a 52-line alphabet (declarations, re-declarations, assignments, expressions over earlier globals, a loop, self-contained function definitions with calls, a block with a local, heap-valued lines, three parse failures, compile failures at every statement position, run-time failures after k completed assignments and inside a nested call); (2) crash points: for every session of <= 2 lines and every line of it, the injected failure after k instructions for EVERY k up to the line's length, followed by probe lines reading every global; (3) breadth-first search to depth d over a 14-line core alphabet with states merged on the fingerprint of compiler + VM + model environment. (6) failing-lines ladder: N consecutive lines that fail inside a nested call with operands pending (N around every power of two up to 4097 / 16 385: about 20 operands are pending when each fails, so 3 300 lines would fill the 65 535-slot stack if anything accumulated), then a declaration, a 5 000-deep recursion and a read-back. (5) session-length ladder: N lines each adding a global and new constants (integers, floats and strings, or a function per line), N around every power of two up to 1025, three failing lines in the middle, earlier and newest globals read back along the way. (4) long sessions, deviation-bounded: four ordinary ten-line sessions (declarations, re-declarations, blocks, loops, functions, heap values, output), every crash point of every one of their lines with the rest of the session as continuation, and every insertion of ONE or TWO lines from a 36-line deviation set (parse / compile / run-time failures at several statement positions, in blocks, in functions, after output and after completed effects, misplaced stop, re-declaration, empty line) at every position: sessions of up to 12 lines. Oracle: a session model on the reference interpreter (a line that fails before running contributes nothing, a line that fails while running contributes exactly the effects it completed), equality of every line's value/output/error kind; for an injected failure the state afterwards must equal the model after SOME prefix of the line's effects; sessions without failing lines must also agree with eval of the concatenated text. The shadow heap stays on across lines",
         assumptions: &[
             "calls to a function defined by an EARLIER line are outside the property (upstream limitation) and not in the alphabet",
             "results handed back by run() are not released by the harness in session mode (they may alias globals or constants)",
@@ -524,6 +524,11 @@ const DEVIATIONS: &[&str] = &[
     "stel lus1 = 0; zolang lus1 < 3 { lus1 = lus1 + zz }",
     "zolang zz { }",
     "functie flus() { zolang ja { zz } } 1",
+    // failing lines that RE-declare a name earlier lines declared (once or twice)
+    "stel a = 3; zz",
+    "stel b = 1; stel a = 2; zz",
+    "stel a = 3; 1 + ja",
+    "stel n = 5; stel p = 6; zz",
     "volgende",
     "volgende; a = 7",
     "antwoord 5",
